@@ -870,7 +870,8 @@ for _p in ('close||disc,connect', 'garbage||disc,connect',
            'kick||disc,connect'):
     QUICK_B[(PLAY_MULTI, _p)] = 1
 QUICK_B[('play', 'close||disc,connect')] = 1
-THOROUGH_ONLY = {(PLAY_MULTI, 'close||disc,connect'),
+THOROUGH_ONLY = {(ENCRYPTING, 'disc,connect'),      # (COMPRESSING covers it)
+                 (PLAY_MULTI, 'close||disc,connect'),
                  (PLAY_MULTI, 'garbage||disc,connect'),
                  ('play', 'garbage||disc,connect')}
 QUICK_B[(NEGOTIATING, 'close||disc,connect')] = 0
